@@ -1,0 +1,14 @@
+//go:build verif
+
+package mysql
+
+import (
+	"database/sql"
+
+	"github.com/kubeflow/katib/pkg/db/v1beta1/common"
+)
+
+// NewVerifDBConn wraps an existing *sql.DB in the package's dbConn.
+func NewVerifDBConn(db *sql.DB) common.KatibDBInterface {
+	return &dbConn{db: db}
+}
